@@ -19,10 +19,12 @@ import (
 	"github.com/Oneledger/protocol/action"
 	govact "github.com/Oneledger/protocol/action/governance"
 	"github.com/Oneledger/protocol/consensus"
+	"github.com/Oneledger/protocol/data/balance"
 	"github.com/Oneledger/protocol/data/evidence"
 	"github.com/Oneledger/protocol/data/governance"
 	"github.com/Oneledger/protocol/data/keys"
 	"github.com/Oneledger/protocol/identity"
+	"github.com/Oneledger/protocol/storage"
 )
 
 func init() { subcmds["c14"] = c14Main }
@@ -88,12 +90,12 @@ func (cw *c14World) genesis() *GenesisSpec {
 }
 
 type c14Env struct {
-	Opts   [3]c14Opts
-	Active [][2]int64 // account index, power
-	Vals   []int
-	Bounty int
-	Exec   int
-	Keep   [][2]int
+	Opts    [3]c14Opts
+	Active  [][2]int64 // account index, power
+	Vals    []int
+	Bounty  int
+	Exec    int
+	Keep    [][2]int
 	CfgFail []int // ids held by the finalize-failed store after the step: their update function reported an error
 }
 type c14Opts struct {
@@ -120,6 +122,7 @@ type c14Op struct {
 	Fee      string
 	Ok       bool
 	Descr    string
+	Bals     []string // reload: balances of the new genesis per account index
 }
 
 type c14PObs struct {
@@ -138,6 +141,7 @@ type c14Obs struct {
 	Pool    string
 	Anom    bool
 	Applied []bool
+	Reload  bool
 }
 
 type c14Case struct {
@@ -158,17 +162,17 @@ func c14Dist(d governance.ProposalFundDistribution) [5]int64 {
 }
 
 type c14Run struct {
-	cw     *c14World
-	rep    *Replica
-	c      *c14Case
-	envIdx map[string]int
-	pids   []string // proposal index -> hex id
-	nonce  int
-	pubFin bool // a public PROPOSAL_FINALIZE succeeded in the current block
-	prod     bool                 // genesis with production-range proposal options (option updates validate)
-	cfg      map[int][2]string    // config proposal index -> update key, value
-	keyOwner map[string]int       // update key -> index of the last proposal created with it
-	applied  map[int]bool         // config proposals whose value has been seen in force
+	cw       *c14World
+	rep      *Replica
+	c        *c14Case
+	envIdx   map[string]int
+	pids     []string // proposal index -> hex id
+	nonce    int
+	pubFin   bool              // a public PROPOSAL_FINALIZE succeeded in the current block
+	prod     bool              // genesis with production-range proposal options (option updates validate)
+	cfg      map[int][2]string // config proposal index -> update key, value
+	keyOwner map[string]int    // update key -> index of the last proposal created with it
+	applied  map[int]bool      // config proposals whose value has been seen in force
 }
 
 func (r *c14Run) env() int { return r.intern(r.envRaw()) }
@@ -838,7 +842,9 @@ func (r *c14Run) randomOp(g *c14Gen, h int64) {
 		}
 		r.doCancel(id, who)
 	case k < 84:
-		id := anyID(func(p *c14PObs) bool { return p.Outcome == 4 || p.Outcome == 1 || (p.Stores == 1 && p.Status == 0 && p.Fdl < h) })
+		id := anyID(func(p *c14PObs) bool {
+			return p.Outcome == 4 || p.Outcome == 1 || (p.Stores == 1 && p.Status == 0 && p.Fdl < h)
+		})
 		if id < 0 {
 			return
 		}
@@ -920,6 +926,82 @@ func (r *c14Run) endBlock() *c14Obs {
 	return &o
 }
 
+// what olfullnode save_state writes for the governance proposals (cmd/olfullnode/save_state.go DumpGovProposalsToFile,
+// package main, not importable: the same loop over the same store API on the COMMITTED state)
+func (r *c14Run) exportProposals() ([]governance.GovProposal, int64) {
+	st := storage.NewState(r.rep.A.VerifChainState())
+	pm := governance.NewProposalMasterStore(
+		governance.NewProposalStore("propActive", "propPassed", "propFailed", "propFinalized", "propFinalizeFailed", st),
+		governance.NewProposalFundStore("propFunds", st), governance.NewProposalVoteStore("propVotes", st))
+	out := []governance.GovProposal{}
+	version := pm.Proposal.GetState().Version()
+	for _, state := range []governance.ProposalState{governance.ProposalStateActive, governance.ProposalStatePassed, governance.ProposalStateFailed,
+		governance.ProposalStateFinalized, governance.ProposalStateFinalizeFailed} {
+		pm.Proposal.WithPrefixType(state)
+		pm.Proposal.Iterate(func(id governance.ProposalID, proposal *governance.Proposal) bool {
+			if state == governance.ProposalStateActive {
+				proposal.FundingDeadline = proposal.FundingDeadline - version
+				proposal.VotingDeadline = proposal.VotingDeadline - version
+				if proposal.FundingDeadline < 0 {
+					proposal.FundingDeadline = 0
+				}
+				if proposal.VotingDeadline < 0 {
+					proposal.VotingDeadline = 0
+				}
+			}
+			out = append(out, governance.GovProposal{Prop: *proposal, ProposalVotes: pm.GetProposalVotes(proposal.ProposalID),
+				ProposalFunds: pm.GetProposalFunds(proposal.ProposalID), State: state})
+			return false
+		})
+	}
+	return out, version
+}
+
+// relaunch: export the governance state as save_state does, put it (with the options in force and the balances of the
+// tracked accounts) into a new genesis document (a JSON round trip), start a fresh chain from it (InitChain ->
+// setupState -> LoadProposals) and go on there
+func (r *c14Run) relaunch() {
+	props, version := r.exportProposals()
+	gs := governance.NewStore("g", r.rep.A.VerifDeliver())
+	po, err := gs.GetProposalOptions()
+	must(err)
+	oo, err := gs.GetONSOptions()
+	must(err)
+	dump := r.rep.Dump()
+	bals := []consensus.BalanceState{{Address: keys.Address("rewardpool"), Currency: "OLT", Amount: *OLT.NewCoinFromInt(1000000).Amount}}
+	for ai := range r.cw.accts {
+		if v, ok := dump["b_"+r.cw.accts[ai].String()+"_OLT"]; ok {
+			a, _ := balance.NewAmountFromString(jsonAmt(v), 10)
+			bals = append(bals, consensus.BalanceState{Address: r.cw.accts[ai], Currency: "OLT", Amount: *a})
+		}
+	}
+	spec := r.cw.genesis()
+	base := spec.Customize
+	spec.Customize = func(st *consensus.AppState) {
+		base(st)
+		st.Governance.PropOptions = *po
+		st.Governance.ONSOptions = *oo
+		st.Balances = bals
+		st.Proposals = props
+	}
+	old := r.rep
+	r.rep = NewReplica(spec, ReplicaOpts{NodeVal: r.cw.w.Vals[0].Val})
+	r.rep.InitChain()
+	old.Close()
+	o := r.observe(r.rep.View())
+	o.Reload = true
+	r.c.Ops = append(r.c.Ops, c14Op{Kind: "reload", H: version, Amt: o.Pool, Bals: o.Bal, Env: -1, Ok: true, Fee: "0",
+		Descr: fmt.Sprintf("RELAUNCH from the state exported at version %d (%d proposals)", version, len(props))})
+	r.c.Obs = append(r.c.Obs, o)
+	r.c.Notes["relaunches"] = 1
+	// the new chain needs its validator status records again (see c14NewRun)
+	r.beginBlock()
+	r.doStake(r.cw.w.Vals[0], "1000", false)
+	r.endBlock()
+	r.beginBlock()
+	r.endBlock()
+}
+
 func c14NewRun(name string) *c14Run {
 	cw := c14NewWorld()
 	rep := NewReplica(cw.genesis(), ReplicaOpts{NodeVal: cw.w.Vals[0].Val})
@@ -975,6 +1057,10 @@ func c14RandomOn(seed int64, ci int, nblocks int, prod bool) *c14Case {
 	r := c14NewRun(fmt.Sprintf("r%d_%d", seed, ci))
 	r.prod = prod
 	g := &c14Gen{rnd: rnd}
+	relaunchAt := -1
+	if ci%2 == 1 && nblocks > 16 {
+		relaunchAt = 7 + rnd.Intn(nblocks-14) // export + import somewhere in the middle of every second history
+	}
 	for b := 0; b < nblocks; b++ {
 		h := r.beginBlock()
 		n := rnd.Intn(5)
@@ -1015,6 +1101,10 @@ func c14RandomOn(seed int64, ci int, nblocks int, prod bool) *c14Case {
 			r.randomOp(g, h)
 		}
 		g.prev = r.endBlock()
+		if b == relaunchAt {
+			r.relaunch()
+			g.prev = &r.c.Obs[len(r.c.Obs)-1]
+		}
 	}
 	return r.finish()
 }
@@ -1145,7 +1235,7 @@ func c14ScriptGoal(raised bool) func() *c14Case {
 			r.doFund(1, 4, "5000000000") // total 6e9: above the lowered option, below the recorded goal
 			r.endBlock()
 			r.beginBlock()
-			r.doFund(1, 5, "4000000000") // total 1e10 = recorded goal, below the raised option
+			r.doFund(1, 5, "4000000000")                                                                        // total 1e10 = recorded goal, below the raised option
 			r.doCreate(2, 4, "1000000000", r.rep.H+5, r.rep.H+5+c14VDelta[2], val, int64(c14Pass[2]), "", true) // a new one follows the option
 			r.doCreate(2, 4, "1000000000", r.rep.H+5, r.rep.H+5+c14VDelta[2], "10000000000", int64(c14Pass[2]), "", true)
 			o := r.endBlock()
@@ -1200,11 +1290,11 @@ func c14ScriptOptions() *c14Case {
 		r.beginBlock() // the four updates are applied at this EndBlock
 		r.endBlock()
 		r.beginBlock()
-		r.doFund(4, 5, "9000000000")  // p4 starts voting now: deadline = height + the NEW option (150777)
-		r.doVote(5, v1, 1)            // p5: yes 2/3 = 66% >= its own 60% although the option is 80 now: passes
-		r.doCreate(1, 4, "1000000000", r.rep.H+4, r.rep.H+4+150777, "10000000000", 80, "", true)  // initial funding now 1.4e9: refused
-		r.doCreate(1, 4, "1400000000", r.rep.H+4, r.rep.H+4+150777, "10000000000", 80, "", true)  // accepted
-		r.doCreate(1, 4, "1400000000", r.rep.H+4, r.rep.H+4+150000, "10000000000", 60, "", true)  // genesis values: refused
+		r.doFund(4, 5, "9000000000")                                                             // p4 starts voting now: deadline = height + the NEW option (150777)
+		r.doVote(5, v1, 1)                                                                       // p5: yes 2/3 = 66% >= its own 60% although the option is 80 now: passes
+		r.doCreate(1, 4, "1000000000", r.rep.H+4, r.rep.H+4+150777, "10000000000", 80, "", true) // initial funding now 1.4e9: refused
+		r.doCreate(1, 4, "1400000000", r.rep.H+4, r.rep.H+4+150777, "10000000000", 80, "", true) // accepted
+		r.doCreate(1, 4, "1400000000", r.rep.H+4, r.rep.H+4+150000, "10000000000", 60, "", true) // genesis values: refused
 		r.endBlock()
 		r.beginBlock()
 		r.doVote(4, v0, 1)
@@ -1279,6 +1369,71 @@ func c14ScriptFinFail() *c14Case {
 	})
 }
 
+// export / import: proposals in every state (funding, voting with partial votes, passed and voted-down but not yet
+// finalised, cancelled, finalized) are exported the way save_state does and imported by a fresh chain; the history goes on
+// there: the waiting proposals are finalised according to their recorded votes, one more vote decides the partial one
+func c14ScriptRelaunch() *c14Case {
+	return c14WithProd(func() *c14Case {
+		r := c14NewRun("relaunch")
+		r.prod = true
+		v0, v1, v2 := r.acct(r.cw.w.Vals[0].Val.Addr), r.acct(r.cw.w.Vals[1].Val.Addr), r.acct(r.cw.w.Vals[2].Val.Addr)
+		h := r.beginBlock()
+		mk := func(ty, who int, cfg string) {
+			r.doCreate(ty, who, "1000000000", h+9, h+9+c14VDelta[ty], "10000000000", int64(c14Pass[ty]), cfg, true)
+		}
+		mk(2, 1, "")                                                                    // p0 general (67%): two yes votes before the export (66.6%: undecided), the third after the import
+		mk(1, 2, "")                                                                    // p1 codeChange: passed, waiting for its finalisation at the export
+		mk(2, 3, "")                                                                    // p2 general: still being funded
+		mk(2, 4, "")                                                                    // p3 cancelled
+		mk(0, 1, fmt.Sprintf("onsOptions.perBlockFees:%d", c14CfgBase+5))               // p4 finalised before the export
+		mk(1, 2, "")                                                                    // p5 codeChange: voted down, waiting for its finalisation at the export
+		mk(0, 3, fmt.Sprintf("onsOptions.baseDomainPrice:10000000000000000000%02d", 7)) // p6 config: passed, waiting; applied after the import
+		r.endBlock()
+		r.beginBlock()
+		for _, i := range []int{0, 1, 4, 5, 6} {
+			r.doFund(i, 2, "9000000000")
+		}
+		r.doFund(2, 5, "3000000000")
+		r.doCancel(3, 4)
+		r.endBlock()
+		r.beginBlock()
+		r.doVote(4, v0, 1)
+		r.doVote(4, v1, 1)
+		r.endBlock()
+		r.beginBlock() // p4 finalised
+		r.endBlock()
+		r.beginBlock()
+		r.doVote(0, v0, 1)
+		r.doVote(0, v1, 1)
+		r.doVote(1, v0, 1)
+		r.doVote(1, v2, 1)
+		r.doVote(5, v1, 2)
+		r.doVote(5, v2, 2)
+		r.doVote(6, v0, 1)
+		r.doVote(6, v1, 1)
+		r.doWithdraw(3, 4, "400000000", 4)
+		r.endBlock()
+		r.relaunch() // p1, p5, p6 are finalised by the new chain in its first blocks, from their imported votes
+		last := &r.c.Obs[len(r.c.Obs)-1]
+		ok := func(i int, stores, outcome int64) bool {
+			return last.Props[i] != nil && last.Props[i].Stores == stores && last.Props[i].Outcome == outcome
+		}
+		r.c.Notes["relaunch_waiting_finalised"] = ok(1, 8, 5) && ok(5, 8, 3) && ok(6, 8, 5) && len(last.Applied) > 6 && last.Applied[6]
+		hh := r.beginBlock()
+		r.doVote(0, v2, 1) // third yes: 100% >= 67%
+		r.doFund(2, 5, "6000000000")
+		r.doWithdraw(3, 4, "600000000", 4)
+		r.recreateLive(4, 5, hh)
+		o := r.endBlock()
+		r.c.Notes["relaunch_partial_votes_kept"] = o.Props[0] != nil && o.Props[0].Stores == 2 && o.Props[0].Outcome == 5
+		for i := 0; i < 2; i++ {
+			r.beginBlock()
+			r.endBlock()
+		}
+		return r.finish()
+	})
+}
+
 // a full honest life: create, fund to the goal, vote yes, automatic finalisation (config update applied), and a failing one
 func c14ScriptLife() *c14Case {
 	r := c14NewRun("life")
@@ -1345,12 +1500,18 @@ func c14CoqOp(o c14Op) string {
 		op = fmt.Sprintf("OFinalize %d%%N", o.ID)
 	case "adjust":
 		op = fmt.Sprintf("OAdjust %d%%N %s", o.A, c14Z(o.Amt))
+	case "reload":
+		bs := []string{}
+		for i, b := range o.Bals {
+			bs = append(bs, fmt.Sprintf("(%d%%N, %s)", i, c14Z(b)))
+		}
+		return fmt.Sprintf("HReload %s [%s] %s", c14Zi(o.H), strings.Join(bs, "; "), c14Z(o.Amt))
 	}
 	env := "e0"
 	if o.Env >= 0 {
 		env = fmt.Sprintf("e%d", o.Env)
 	}
-	return fmt.Sprintf("mkTx (%s) %s %d%%N %s", op, env, o.Payer, c14Z(o.Fee))
+	return fmt.Sprintf("HOp (mkTx (%s) %s %d%%N %s)", op, env, o.Payer, c14Z(o.Fee))
 }
 
 func c14Bools(bs []bool) string {
@@ -1383,7 +1544,7 @@ func c14CoqObs(o c14Obs) string {
 	for _, b := range o.Bal {
 		bs = append(bs, c14Z(b))
 	}
-	return fmt.Sprintf("mkSO %s [%s] [%s] %s %v %s", c14Zi(o.H), strings.Join(ps, "; "), strings.Join(bs, "; "), c14Z(o.Pool), o.Anom, c14Bools(o.Applied))
+	return fmt.Sprintf("mkSO %s [%s] [%s] %s %v %s %v", c14Zi(o.H), strings.Join(ps, "; "), strings.Join(bs, "; "), c14Z(o.Pool), o.Anom, c14Bools(o.Applied), o.Reload)
 }
 
 func c14WriteCoq(path string, cases []*c14Case, na int) {
@@ -1447,7 +1608,7 @@ func c14Main(args []string) int {
 	fs.Parse(args)
 
 	cases := []*c14Case{}
-	builders := []func() *c14Case{c14ScriptE11, c14ScriptLife, c14ScriptNegative, c14ScriptDrift, c14ScriptGoal(true), c14ScriptGoal(false), c14ScriptOptions, c14ScriptFinFail}
+	builders := []func() *c14Case{c14ScriptE11, c14ScriptLife, c14ScriptNegative, c14ScriptDrift, c14ScriptGoal(true), c14ScriptGoal(false), c14ScriptOptions, c14ScriptFinFail, c14ScriptRelaunch}
 	for i := 0; i < *n; i++ {
 		ci := i
 		builders = append(builders, func() *c14Case { return c14Random(*seed, ci, *nb) })
